@@ -114,6 +114,8 @@ def catalogue_values(exe, seed, tier):
     for cid, tid, t, v in cases:
         r = eres.get(cid) or ''
         if '\t' not in r:
+            if not r.startswith('skip'):
+                dis.append({'what': 'enc of %s %s gave %r' % (K.rust(t), v[:80], r[:160])})
             continue
         repr_, res = r.split('\t', 1)
         if not res.startswith('ok') or tid not in bound:
@@ -127,6 +129,8 @@ def catalogue_values(exe, seed, tier):
             fails.append({'class': 'bound-below-value', 'key': '%s %s' % (K.sexp(t), repr_[:80]),
                           'what': 'max_serialized_size of %s is %d but the value %s serializes to %d bytes' % (K.rust(t), bound[tid], repr_[:200], n),
                           'type': K.sexp(t), 'value': repr_, 'bytes': res[3:], 'bound': bound[tid]})
+    if checked < 300:
+        dis.append({'what': 'only %d catalogue values were compared with their bound (floor 300)' % checked})
     return ({'catalogue_types_with_bound': len(bound), 'catalogue_values_checked_against_bound': checked,
              'largest_value/bound': {'ratio': round(worst[0], 4), 'type': worst[1]}, 'helper_functions_compared': len(cat)}, dis, fails)
 
